@@ -81,7 +81,7 @@ def _run_crosshair(target, timeout, per_path=None, cwd=None, extra_env=None):
     return rc, out, time.time() - t0
 
 
-_CALL = re.compile(r"when calling (.+?)(?: \(which (?:returns|raises) .*\))?\s*$")
+_CALL = re.compile(r"when calling (.+?)(?: with crosshair\.patch_to_return\(.*\))?(?: \(which (?:returns|raises) .*\))?\s*$")
 
 
 def parse(out, fname):
@@ -247,6 +247,9 @@ def run_contracts(ctx, files, timeout=None, only=None, per_fn_timeout=None, tier
             m = re.search(r"^\s*budget:\s*(\d+)", doc, re.M)
             if m:
                 t = int(m.group(1)) * (1 if ctx.tier == "quick" else 4)
+            is_search = bool(re.search(r"^\s*mode:\s*search", doc, re.M))
+            if is_search and ctx.tier == "quick" and not m:
+                t = min(t, 60)
             items.append(dict(path=path, fname=fname, lineno=lineno, doc=doc, timeout=t, work=ctx.work, name=f"{fb}:{fname}",
                               search=bool(re.search(r"^\s*mode:\s*search", doc, re.M))))
     ctx.shapes += len(items)
